@@ -228,6 +228,13 @@ def ptr_array_inst(n, tier):
 
 def units(tier):
     insts = entry_points(tier) + lemmas(tier) + cell_ops(tier) + [free_inst(tier), finder_inst(tier)] + [ptr_array_inst(n, tier) for n in ([4] if tier == 'quick' else [1, 4, 16, 64])]
+    # the no-context paths find the sandbox through the live registry: its exactness under create/destroy in any order
+    # (contracts of C14) is what makes "relative to that sandbox and never relative to another" hold across histories
+    from . import C14
+    for it in (C14.create_inst(tier), C14.destroy_inst(tier, clause_recreate=False)):
+        it.name = it.name.replace('c14_', 'c04_registry_')
+        it.prop = PROP
+        insts.append(it)
     return [Unit('C04_translation', insts)]
 
 
